@@ -20,6 +20,7 @@ type HTMLGenConfig struct {
 	Wide     bool // some elements get 17-60 children / many attributes
 	Deep     int  // > 0: that many nested elements followed by a sibling (counter widths)
 	LeadWS   int  // > 0: that many white-space bytes before the doctype (sniff windows)
+	Huge     int  // > 0: that many childless elements in a row (counters that leak per element)
 }
 
 func DrawHTMLConfig(t *simkit.Tape) HTMLGenConfig {
@@ -35,6 +36,9 @@ func DrawHTMLConfig(t *simkit.Tape) HTMLGenConfig {
 	if t.Bool(1, 25) {
 		c.Deep = []int{130, 256, 257, 300, 511, 513}[t.Draw(6)]
 	}
+	if t.Bool(1, 60) {
+		c.Huge = []int{10001, 12000, 20000}[t.Draw(3)]
+	}
 	if t.Bool(1, 25) {
 		c.LeadWS = []int{500, 1016, 1024, 1025, 4096, 5000}[t.Draw(6)]
 	}
@@ -48,6 +52,10 @@ var htmlTable = []string{"table", "tbody", "tr", "td", "th", "caption", "colgrou
 var htmlForeign = []string{"svg", "math", "g", "circle", "path", "mi", "mo", "foreignObject", "desc", "annotation-xml"}
 var htmlAttrNames = []string{"id", "class", "href", "title", "data-x", "style", "lang"}
 var htmlNSAttrNames = []string{"xmlns", "xmlns:xlink", "xmlns:x", "xlink:href", "xml:lang", "x:y", "xlink:type", "v-on:update:model-value", "a:b:c", "v-bind:xlink:href"}
+// shapes in which the HTML5 algorithm produces adjacent text nodes or implied
+// elements: text in table context (foster parenting), also inside template
+var htmlSnippets = []string{"<template><tr>a<!--x-->b</template>", "<table>a<!--x-->b<tr><td>c</td></tr>d</table>", "<template><td>x</td>y<!---->z</template>", "<table><tr>t1<td>u</td>t2</tr></table>", "<select>a<option>b<!--c-->d</select>", "<svg><foreignObject><div>a</div>b</foreignObject><title>t</title></svg>", "<math><mi xlink:href=\"h\" xmlns:xlink=\"u\">x</mi><annotation-xml encoding=\"text/html\"><p>q</p></annotation-xml></math>", "<p>a<table><tr><td>b</table>c", "<frameset><frame src=x></frameset>"}
+
 var htmlTexts = []string{"hello", " ", "a &amp; b", "&lt;x&gt;", "x<y", "1 > 0", "é😀", "&nbsp;", "\n", "&#65;&#x42;", "&unknown;", "text with  spaces", "]]>", "--", "a\x00b"}
 
 type htmlGen struct {
@@ -98,7 +106,9 @@ func (g *htmlGen) content(depth int) {
 	}
 	for i := 0; i < n && g.nodes < budget; i++ {
 		g.nodes++
-		switch g.t.Pick(5, 4, 1, 1, 1) {
+		switch g.t.Pick(5, 4, 1, 1, 1, 1) {
+		case 5:
+			g.b.WriteString(htmlSnippets[g.t.Draw(len(htmlSnippets))])
 		case 0:
 			g.element(depth)
 		case 1:
@@ -188,6 +198,10 @@ func GenHTML(t *simkit.Tape, cfg HTMLGenConfig) []byte {
 		g.content(1)
 		g.b.WriteString("</body></html>")
 	case 1:
+		if cfg.Huge > 0 {
+			tag := []string{"<br>", "<td></td>", "<img>", "<span></span>"}[t.Draw(4)]
+			g.b.WriteString("<div>" + strings.Repeat(tag, cfg.Huge) + "</div><p>after</p>")
+		}
 		if cfg.Deep > 0 {
 			tag := []string{"div", "span", "b", "section"}[t.Draw(4)]
 			g.b.WriteString(strings.Repeat("<"+tag+">", cfg.Deep))
